@@ -17,6 +17,66 @@ theorem c02_pred_model (buf : Bytes) (prev : List Bytes) :
   simp only [Pred.C02.pred, holds, modelObs, Bool.and_eq_true, beq_iff_eq]
   exact ⟨recvHolds_model {} {} rfl buf, modelRecv_receiver _ _ buf⟩
 
+/-- what the executable predicate says, spelled out (so that `c02_pred_model`, and a `pred=t` verdict
+    on an observation of the real code, can be read without the Bool definitions): nothing
+    panicked; the used receivers show exactly what the fresh ones show; a successful
+    Header.Unmarshal reports a length inside the input; a successful Packet.Unmarshal comes with a
+    successful Header.Unmarshal whose length, plus payload and padding, is the input length, and the
+    payload is the input bytes after the header. -/
+theorem c02_pred_meaning (buf : Bytes) (prev : List Bytes) (o : Obs) (h : Pred.C02.pred buf prev o = true) :
+    o.fresh.hun ≠ .panic ∧ o.fresh.pun ≠ .panic ∧ o.reused = o.fresh ∧
+    (∀ a, o.fresh.hun = .ok a → a.n ≤ buf.length ∧ locsOk buf a.n a.h.exts a.locs = true) ∧
+    (∀ b, o.fresh.pun = .ok b → ∃ a, o.fresh.hun = .ok a ∧
+      a.n + b.p.payload.length + b.p.paddingSize.toNat = buf.length ∧
+      b.p.payload = slice buf a.n (a.n + b.p.payload.length) ∧
+      locsOk buf a.n b.p.header.exts b.locs = true) := by
+  simp only [Pred.C02.pred, holds, recvHolds, Bool.and_eq_true, beq_iff_eq] at h
+  obtain ⟨⟨hh, hp⟩, hr⟩ := h
+  refine ⟨?_, ?_, hr, ?_, ?_⟩
+  · intro hc; rw [hc] at hh; simp [hdrHolds] at hh
+  · intro hc; rw [hc] at hp; simp [pktHolds] at hp
+  · intro a ha
+    rw [ha] at hh
+    simpa [hdrHolds] using hh
+  · intro b hb
+    rw [hb] at hp
+    cases ha : o.fresh.hun with
+    | ok a =>
+      rw [ha] at hp
+      simp only [pktHolds, Bool.and_eq_true, beq_iff_eq] at hp
+      exact ⟨a, rfl, hp.1.1.1, hp.1.1.2, hp.2⟩
+    | err e => rw [ha] at hp; simp [pktHolds] at hp
+    | panic => rw [ha] at hp; simp [pktHolds] at hp
+
+/-- … and `locsOk`: one reported offset per element; every non-empty value lies at its offset inside
+    `[0, n)` and is exactly the input bytes there -/
+theorem c02_locsOk_meaning (buf : Bytes) (n : Nat) (exts : List Ext) (locs : List Int)
+    (h : locsOk buf n exts locs = true) :
+    locs.length = exts.length ∧
+    ∀ x ∈ exts.zip locs, x.1.payload = [] ∨
+      (0 ≤ x.2 ∧ x.2.toNat + x.1.payload.length ≤ n ∧
+        x.1.payload = slice buf x.2.toNat (x.2.toNat + x.1.payload.length)) := by
+  induction exts generalizing locs with
+  | nil =>
+    cases locs with
+    | nil => simp
+    | cons o os => simp [locsOk] at h
+  | cons e es ih =>
+    cases locs with
+    | nil => simp [locsOk] at h
+    | cons o os =>
+      simp only [locsOk, Bool.and_eq_true, Bool.or_eq_true, List.isEmpty_iff, decide_eq_true_eq,
+        beq_iff_eq] at h
+      obtain ⟨he, hrest⟩ := h
+      obtain ⟨hl, hall⟩ := ih os hrest
+      refine ⟨by simp [hl], fun x hx => ?_⟩
+      simp only [List.zip_cons_cons, List.mem_cons] at hx
+      rcases hx with rfl | hx
+      · rcases he with he | he
+        · exact Or.inl he
+        · exact Or.inr ⟨he.1.1, he.1.2, he.2⟩
+      · exact hall x hx
+
 /-- Header.Unmarshal and Packet.Unmarshal return normally on every byte string, whatever the
     receiver held before. -/
 theorem c02_nopanic (r : Packet) (buf : Bytes) :
